@@ -380,8 +380,9 @@ def gen_messages(rng, big_ok):
     return msgs
 
 
-def frames_of(rng, msgs, masked):
-    """[(description, bytes)] of all frames; control frames may be interleaved between fragments"""
+def frames_of(rng, msgs, masked, fstat=None):
+    """[(description, bytes)] of all frames; control frames may be interleaved between fragments.
+    `fstat` (optional) counts features of the fragmented messages generated (no randomness consumed)"""
     out = []
     key = (lambda: rand_key(rng)) if masked else (lambda: None)
 
@@ -399,11 +400,23 @@ def frames_of(rng, msgs, masked):
         if m.pieces is None:
             out.append((m.kind, ref_frame(op, True, m.payload, key())))
         else:
+            acc, f_inside, f_ctl, f_both = b"", False, False, False
             for i, pc in enumerate(m.pieces):
                 last = i == len(m.pieces) - 1
                 out.append((m.kind + "-frag", ref_frame(op if i == 0 else 0, last, pc, key())))
+                acc += pc
+                unfinished = False
+                if op == 1 and not last:
+                    u = Utf8Ref(); u.feed(acc); unfinished = u.incomplete()
+                f_inside = f_inside or unfinished
                 if not last and rng.random() < 0.25:
                     out.append(ctl(Msg(rng.choice(["ping", "pong"]), bytes(rng.randrange(256) for _ in range(rng.randrange(4))))))
+                    f_ctl = True
+                    f_both = f_both or unfinished
+            if fstat is not None:
+                for k, v in (("fragmented_messages", True), ("boundary_inside_character", f_inside), ("control_between_fragments", f_ctl),
+                             ("control_while_character_unfinished", f_both)):
+                    fstat[k] = fstat.get(k, 0) + int(v)
     return out
 
 
@@ -557,8 +570,10 @@ def status_class(st):
 class Spec:
     props_module = "Mhd.Props.C19"
     lean_targets = ["Mhd.Props.C19", "drv_ws"]
-    required_theorems = ["Mhd.C19.split_independent", "Mhd.C19.split_independent_init", "Mhd.C19.roundtrip_data_partial",
-                         "Mhd.C19.roundtrip_pingpong_partial", "Mhd.C19.roundtrip_close_partial",
+    required_theorems = ["Mhd.C19.split_independent", "Mhd.C19.split_independent_init", "Mhd.C19.roundtrip_data",
+                         "Mhd.C19.roundtrip_pingpong", "Mhd.C19.roundtrip_close", "Mhd.C19.roundtrip_close_noreason",
+                         "Mhd.C19.roundtrip_fragmented_assembled", "Mhd.C19.roundtrip_fragmented_fragments",
+                         "Mhd.C19.fragments_binary", "Mhd.C19.fragments_lossless",
                          "Mhd.C19.decode_no_fault",
                          "Mhd.C19.feed_no_fault", "Mhd.C19.init_ready", "Mhd.C19.reserved_bits", "Mhd.C19.unknown_opcode",
                          "Mhd.C19.fragmented_control", "Mhd.C19.bad_frame_sequence", "Mhd.C19.wrong_mask_or_control_length",
@@ -706,6 +721,15 @@ class Spec:
                     failures.append(vlib.Failure("oracle", sig, "event %s: expected %s got %s; validity expected %s got %s; stream %s" %
                                                  (d, exp, got, ref_valid, validity, c.stream.hex()[:400]), s, ENGINE))
                     stats["ref_mismatch"] += 1
+                # (iii-c) cases built from a message: what the documented API promises for that message
+                want_ev = getattr(c, "expect", None)
+                if want_ev is not None and (ev != want_ev or validity != 1):
+                    d = next((j for j in range(max(len(ev), len(want_ev))) if j >= len(ev) or j >= len(want_ev) or ev[j] != want_ev[j]), None)
+                    failures.append(vlib.Failure("oracle", "ws: round trip of a fragmented message does not return the message (%s)" % c.label,
+                                                 "event %s: decoder gave %s, the message sent requires %s; validity %s; sender script %s" %
+                                                 (d, ev[d:d + 2] if d is not None else ev[-2:], want_ev[d:d + 2] if d is not None else want_ev[-2:],
+                                                  validity, getattr(c, "sender", [])[:12]), getattr(c, "sender", []) + s, ENGINE))
+                    stats["msg_mismatch"] = stats.get("msg_mismatch", 0) + 1
             elif base_ev is not None and (ev != base_ev or validity != base_valid):
                 d = next((j for j in range(max(len(ev), len(base_ev))) if j >= len(ev) or j >= len(base_ev) or ev[j] != base_ev[j]), None)
                 one = base_ev[d] if d is not None and d < len(base_ev) else ("end", "")
@@ -722,6 +746,7 @@ class Spec:
     def stream_cases(self, ctx, n, tier):
         rng = ctx.rng
         cases = []
+        self.stream_frag_features = {}
         for i in range(n):
             client = rng.random() < 0.4
             flags = (CLIENT if client else 0) | (WANTFRAG if rng.random() < 0.45 else 0) | (GENCLOSE if rng.random() < 0.3 else 0)
@@ -729,7 +754,8 @@ class Spec:
             msgs = gen_messages(rng, big_ok)
             if i % 400 == 7:
                 msgs.insert(0, Msg("bin", bytes((j * 13 + i) & 0xFF for j in range(rng.choice(BIG_SIZES)))))
-            frames = frames_of(rng, msgs, masked=not client)
+            fstat = {}
+            frames = frames_of(rng, msgs, masked=not client, fstat=fstat)
             maxp, label = 0, "valid"
             r = rng.random()
             if r < 0.5 and frames:
@@ -751,6 +777,9 @@ class Spec:
             if len(stream) > 3000:
                 cuts = [cuts[0]] + [cs for cs in cuts[1:] if len(cs) <= 8][:6]
             cases.append(Case(label, flags, maxp, alloc, rng.randrange(1, 5), rb, stream, cuts))
+            if label.startswith("valid"):
+                for k, v in fstat.items():
+                    self.stream_frag_features[k] = self.stream_frag_features.get(k, 0) + v
         return cases
 
     def size_class_cases(self, ctx):
@@ -1043,6 +1072,214 @@ class Spec:
                                              "encoded by `%s`; decoder saw %s, expected %s" % (s1[2:][:6], ev[:4], want[:4]), s1 + s2, ENGINE))
             stats["roundtrips"] += 1
 
+    # ---- fragmented messages: real encoders (utf8_step carried by the application) -> wire -> decoder
+    MB = {2: ["\u00e9", "\u0080", "\u07ff"], 3: ["\u0800", "\u20ac", "\ud7ff", "\ue000", "\uffff"],
+          4: ["\U00010000", "\U0001f600", "\U0010ffff"]}
+
+    @staticmethod
+    def incomplete_tail(data):
+        """number of trailing bytes of `data` that are the beginning of an unfinished character (CPython's decoder)"""
+        try:
+            data.decode("utf-8")
+            return 0
+        except UnicodeDecodeError as err:
+            if err.reason == "unexpected end of data" and err.end == len(data):
+                return len(data) - err.start
+            raise
+
+    @classmethod
+    def message_events(cls, op, steps, want):
+        """what the documented API hands out for the message sent as `steps` = [(kind, payload)], kind in
+        first / frag / last / ping / pong: assembling mode = control frames as they come, then the whole
+        message; fragment mode = FIRST / NEXT / LAST fragments, text fragments cut back to complete characters"""
+        ev, carry, whole = [], b"", b""
+        for kind, p in steps:
+            if kind in ("ping", "pong"):
+                ev.append((9 if kind == "ping" else 10, p or None))
+                continue
+            whole += p
+            if not want:
+                continue
+            data = carry + p
+            if kind == "last":
+                ev.append((op | 0x40, data or None))
+                continue
+            keep = cls.incomplete_tail(data) if op == 1 else 0
+            ev.append((op | (0x10 if kind == "first" else 0x20), data[:len(data) - keep] or None))
+            carry = data[len(data) - keep:]
+        if not want:
+            ev.append((op, whole or None))
+        return ev
+
+    def frag_plans(self, ctx, n):
+        """[(label, op, steps)]: a systematic part (every way of cutting one multi-byte character over 2..4
+        frames x what is sent between the pieces) and n random messages"""
+        rng = ctx.rng
+        plans = []
+        between = [[], [("ping", b"")], [("pong", b"po")], [("ping", b"\xc3"), ("pong", bytes(125))], [("frag", b"")],
+                   [("frag", b""), ("ping", b"p"), ("frag", b"")]]
+        for nb, chars in self.MB.items():
+            for ch in chars:
+                cb = ch.encode("utf-8")
+                for mask in range(1, 1 << (nb - 1)):           # non-empty subsets of the inner cut positions
+                    cuts = [i + 1 for i in range(nb - 1) if mask >> i & 1]
+                    for bi, btw in enumerate(between):
+                        pre, post = rand_text(rng, rng.randrange(4)), rand_text(rng, rng.randrange(4))
+                        data = pre + cb + post
+                        pos = [0] + [len(pre) + c for c in cuts] + [len(data)]
+                        pieces = [data[a:b] for a, b in zip(pos, pos[1:])]
+                        steps = [("first", pieces[0])]
+                        for pc in pieces[1:]:
+                            steps += btw
+                            steps.append(("frag", pc))
+                        steps[-1] = ("last", steps[-1][1])
+                        plans.append(("split-char%d/%s" % (nb, "plain" if not btw else "between%d" % bi), 1, steps))
+        for i in range(n):
+            op = 1 if rng.random() < 0.7 else 2
+            size = pick_size(rng, i % 150 == 0)
+            data = rand_text(rng, size) if op == 1 else bytes(rng.randrange(256) for _ in range(size))
+            if op == 1 and rng.random() < 0.6:                 # make sure there are multi-byte characters to cut
+                data = "".join(rng.choice(self.MB[rng.choice([2, 3, 4])]) for _ in range(rng.randrange(1, 6))).encode("utf-8") + data[:40].decode("utf-8", "ignore").encode("utf-8")
+            k = rng.choice([2, 2, 3, 3, 4, 5, 7])
+            cuts = sorted(rng.randrange(len(data) + 1) for _ in range(k - 1))
+            pieces = [data[a:b] for a, b in zip([0] + cuts, cuts + [len(data)])]
+            steps = [("first", pieces[0])]
+            for pc in pieces[1:]:
+                while rng.random() < 0.4:
+                    steps.append((rng.choice(["ping", "pong"]), bytes(rng.randrange(256) for _ in range(rng.choice([0, 1, 3, 125, rng.randrange(126)])))))
+                steps.append(("frag", pc))
+            steps[-1] = ("last", steps[-1][1])
+            plans.append(("random-%s" % ("text" if op == 1 else "bin"), op, steps))
+        return plans
+
+    def fragmented_roundtrip_cases(self, ctx, n, failures, stats):
+        """phase 1: the sending application of theorem roundtrip_fragmented_* (encode_text with its utf8_step
+        variable / encode_binary, FIRST - FOLLOWING… - LAST, encode_ping/pong in between) on the real code and
+        on the model, each frame compared with the RFC 6455 reference framing; phase 2: the bytes produced
+        are fed to a receiver of the opposite role, assembling and fragment mode, several splittings (run_cases:
+        model = code, reference decoder, split independence) + the message-level expectation."""
+        rng = ctx.rng
+        plans = self.frag_plans(ctx, n)
+        fs = {"messages": 0, "assembling": 0, "fragment_mode": 0, "sender_client": 0, "sender_server": 0, "text": 0, "binary": 0,
+              "control_between_fragments": 0, "boundary_inside_character": 0, "control_while_character_unfinished": 0,
+              "empty_fragments": 0, "all_zero_key": 0, "max_payload_exact": 0, "max_payload_exceeded": 0,
+              "frames_per_message": {}, "boundaries_inside_character_total": 0}
+        jobs = []
+        for label, op, steps in plans:
+            for enc_client in ((False, True) if label.startswith("split-char") else (rng.random() < 0.5,)):
+                keys = []
+                for _ in steps:
+                    r = rng.random()
+                    keys.append(bytes(4) if r < 0.12 else (bytes([0, 0, 0, rng.randrange(1, 256)]) if r < 0.18 else bytes(rng.randrange(256) for _ in range(4))))
+                lines = ["init %d 0 %d %d" % (CLIENT if enc_client else 0, 1 << 40, rng.randrange(1, 5)),
+                         "rng " + hx(b"".join(keys) if enc_client else b"")]
+                frames = []
+                for (kind, pl), key in zip(steps, keys):
+                    k = key if enc_client else None
+                    if kind in ("ping", "pong"):
+                        lines.append("enc_%s %s" % (kind, hx(pl)))
+                        frames.append(ref_frame(9 if kind == "ping" else 10, True, pl, k))
+                    else:
+                        fr = {"first": 1, "frag": 2, "last": 3}[kind]
+                        lines.append(("enc_text %s %d =" if op == 1 else "enc_bin %s %d") % (hx(pl), fr))
+                        frames.append(ref_frame(op if kind == "first" else 0, kind == "last", pl, k))
+                jobs.append((label, op, steps, enc_client, keys, lines, frames))
+        scripts1 = [j[5] for j in jobs]
+        hres, hrc, herr, hn = self.run_scripts(scripts1)
+        mres, mrc, merr, mn = self.run_scripts(scripts1, self.driver)
+        if hrc != 0:
+            bad = self.locate_abort(scripts1, hn)
+            if bad is None:
+                bad = self.bisect_exit_report(scripts1)
+            failures.append(vlib.Failure("sanitizer", "ws: sanitizer report: " + self.san_kind(herr), herr[-1800:], scripts1[bad], ENGINE))
+            return
+        cases = []
+        for (label, op, steps, enc_client, keys, lines, frames), h, m in zip(jobs, hres, mres):
+            stats["direct_ops"] += len(lines)
+            if h != m:
+                j = next((j for j in range(len(lines)) if j >= len(m) or j >= len(h) or m[j] != h[j]), 0)
+                failures.append(vlib.Failure("diff", "ws: model/code differ on %s (fragmented sender)" % lines[j].split()[0],
+                                             "line `%s`: code `%s` model `%s`" % (lines[j][:100], (h[j] if j < len(h) else "")[:200],
+                                                                                   (m[j] if j < len(m) else "")[:200]), lines, ENGINE))
+            wire, ok = b"", len(h) == len(lines)
+            for line, out, fr in zip(lines[2:], h[2:], frames):
+                want = "e 0 " + show_payload(fr)
+                if out.split(" step=")[0] != want:
+                    failures.append(vlib.Failure("oracle", "ws: reference disagrees on %s" % line.split()[0],
+                                                 "`%s`: code `%s`, reference `%s` (fragmented sender)" % (line[:120], out[:200], want[:200]), lines, ENGINE))
+                    ok = False
+                mm = re.match(r"e 0 ([0-9a-f]+),t=0", out)
+                wire += bytes.fromhex(mm.group(1)) if mm else fr      # the bytes the real encoder produced (long frames: digest-checked reference)
+            if not ok:
+                continue
+            # statistics of the family
+            fs["messages"] += 1
+            fs["sender_client" if enc_client else "sender_server"] += 1
+            fs["text" if op == 1 else "binary"] += 1
+            nfr = sum(1 for k, _ in steps if k in ("first", "frag", "last"))
+            fs["frames_per_message"][nfr] = fs["frames_per_message"].get(nfr, 0) + 1
+            acc, inside, ctl_inside, any_ctl = b"", 0, False, False
+            for kind, pl in steps:
+                if kind in ("ping", "pong"):
+                    any_ctl = True
+                    if op == 1 and self.incomplete_tail(acc):
+                        ctl_inside = True
+                else:
+                    acc += pl
+                    if kind != "last" and op == 1 and self.incomplete_tail(acc):
+                        inside += 1
+            fs["control_between_fragments"] += any_ctl
+            fs["boundary_inside_character"] += inside > 0
+            fs["boundaries_inside_character_total"] += inside
+            fs["control_while_character_unfinished"] += ctl_inside
+            fs["empty_fragments"] += any(k in ("first", "frag", "last") and not pl for k, pl in steps)
+            fs["all_zero_key"] += enc_client and any(k == bytes(4) for k in keys)
+            total = len(acc)
+            for want in (False, True):
+                flags = (0 if enc_client else CLIENT) | (WANTFRAG if want else 0) | (GENCLOSE if rng.random() < 0.2 else 0)
+                # size limit: none, exactly enough, one too small (then only the reference decoder judges)
+                need = total
+                if want:
+                    need, carry = 0, b""
+                    for kind, pl in steps:
+                        if kind in ("ping", "pong"):
+                            need = max(need, len(pl)); continue
+                        need = max(need, len(carry) + len(pl))
+                        keep = self.incomplete_tail(carry + pl) if (op == 1 and kind != "last") else 0
+                        carry = (carry + pl)[len(carry + pl) - keep:] if keep else b""
+                else:
+                    need = max([total] + [len(pl) for k, pl in steps if k in ("ping", "pong")])
+                r = rng.random()
+                maxp = 0 if r < 0.6 or need == 0 else (need if r < 0.85 else need - 1)
+                expect = None
+                if maxp == 0 or maxp >= need:
+                    expect = [(st, show_payload(p)) for st, p in self.message_events(op, steps, want)]
+                    fs["max_payload_exact"] += maxp == need and maxp != 0
+                else:
+                    fs["max_payload_exceeded"] += 1
+                fs["fragment_mode" if want else "assembling"] += 1
+                nw = len(wire)
+                cuts = [[]]
+                if nw > 1:
+                    if nw <= 400:
+                        cuts.append(list(range(1, nw)))
+                    hdr_ends, pos = [], 0
+                    for fr in frames:
+                        pos += len(fr); hdr_ends.append(pos)
+                    cuts.append([c for c in hdr_ends[:-1]])                                   # exactly at the frame boundaries
+                    cuts.append(sorted(set(c + d for c in hdr_ends[:-1] for d in (-1, 1) if 0 < c + d < nw)))   # one byte off
+                    for _ in range(2):
+                        cuts.append(sorted(set(rng.randrange(1, nw) for _ in range(rng.choice([1, 2, 5])))))
+                c = Case("fragmented/" + label + ("/fragments" if want else "/assembled"), flags, maxp, 1 << 40, rng.randrange(1, 5),
+                         b"", wire, [cs for cs in cuts if all(0 < x < nw for x in cs)])
+                c.expect, c.sender = expect, lines
+                cases.append(c)
+        before = stats["scripts"]
+        self.run_cases(cases, failures, stats)
+        fs["receiver_cases"] = len(cases)
+        fs["receiver_scripts"] = stats["scripts"] - before
+        stats["fragmented"] = fs
+
     def alignment_run(self, ctx, stats):
         """separate small run with -fsanitize=alignment: findings are reported, they do not fail the check"""
         k = b"\x01\x02\x03\x04"
@@ -1090,6 +1327,7 @@ class Spec:
         self.utf8_cases(ctx, ctx.tier, failures, stats)
         self.accept_cases(ctx, failures, stats)
         self.roundtrip_cases(ctx, 20000 if thorough else 1500, failures, stats)
+        self.fragmented_roundtrip_cases(ctx, 12000 if thorough else 700, failures, stats)
         self.alignment_run(ctx, stats)
         labels = {}
         for c in cases:
@@ -1113,6 +1351,8 @@ class Spec:
                "stream_cases": len(cases), "scripts": stats["scripts"], "case_kinds": labels, "stream_sizes": sizes,
                "frame_outcomes_one_call": stats["status"], "header_pair_cases": len(hp), "direct_op_lines": stats["direct_ops"],
                "utf8_inputs": stats.get("utf8_inputs", 0), "accept_keys": stats.get("accept_keys", 0), "roundtrips": stats["roundtrips"],
+               "fragmented_messages_in_unmutated_stream_cases": getattr(self, "stream_frag_features", {}),
+               "fragmented_message_roundtrips": stats.get("fragmented", {}), "message_level_mismatches": stats.get("msg_mismatch", 0),
                "corpus": len(corpus), "model_code_differences": stats["diff"], "split_dependences": stats["split_dep"],
                "reference_mismatches": stats["ref_mismatch"], "sanitizer_reports": stats["sanitizer"],
                "alignment_findings_observed": stats.get("alignment_findings", [])}
